@@ -448,6 +448,11 @@ def run_special(tier, r):
         ("deep-nesting", (lambda mk: mk(mk, 40))(lambda mk, d: C.Struct("v" / C.Byte, "in" / mk(mk, d - 1)) if d else C.Struct("v" / C.Byte)), [bytes(range(41)), bytes(30)], []),
         ("deep-wrappers", C.Prefixed(C.Byte, C.FixedSized(6, C.Padded(5, C.Aligned(2, C.NullTerminated(C.Prefixed(C.Byte, C.Struct("a" / C.Byte, "r" / C.GreedyBytes))))))),
          [b"\x06\x02\x07\x08\x00\x00\x00", b"\x06\x01\x07\x00\x00\x00\x00"], []),
+        # structs made of anonymous members only still open a scope: `_` inside them is the enclosing struct
+        ("anonymous-struct-scope", C.Struct("n" / C.Byte, "body" / C.Struct(C.Const(b"\x01"), C.Padding(this._.n)), "tail" / C.Byte), [b"\x02\x01\x00\x00\x09", b"\x00\x01\x09"], [dict(n=2, body=dict(), tail=9)]),
+        ("anonymous-struct-scope2", C.Struct("len" / C.Byte, "rec" / C.Struct("len" / C.Byte, "in" / C.Struct(C.Bytes(this._.len), C.Check(this._._.len == 7))), "t" / C.Byte), [b"\x07\x02ab\x09", b"\x06\x02ab\x09"], []),
+        ("anonymous-struct-root", C.Struct(C.Const(b"\x01"), C.Bytes(this._params.k), C.Check(this._root._params.k == 1)), [b"\x01\x05", b"\x02\x05"], [dict()]),
+        ("anonymous-sequence-scope", C.Struct("n" / C.Byte, "body" / C.Sequence(C.Const(b"\x01"), C.Bytes(this._.n)), "tail" / C.Byte), [b"\x02\x01ab\x09"], [dict(n=1, body=[None, b"x"], tail=9)]),
         ("union", C.Union(0, "a" / C.Int16ub, "b" / C.Byte, "c" / C.Bytes(2)), [b"\x01\x02", b"\x01"], [dict(a=258), dict(b=1), dict(c=b"xy")]),
         ("union-none", C.Struct("u" / C.Union(None, "a" / C.Int16ub, "b" / C.Byte), "t" / C.Byte), [b"\x01\x02\x03"], [dict(u=dict(a=5), t=1)]),
         ("union-name", C.Struct("u" / C.Union("b", "a" / C.Int16ub, "b" / C.Byte), "t" / C.Byte), [b"\x01\x02\x03"], []),
